@@ -23,6 +23,23 @@ PATHO = {"path1": lambda n: "*a **a\n" * n + "b " + "a** a*\n" * n, "path2": lam
          "mixed": lambda n: "[ ( ]" + "[" * (20 * n) + ")" * (20 * n) + "\n"}
 
 
+def symtab(exe):
+    """text symbols of the harness executable: address -> name"""
+    import subprocess
+    out = subprocess.run(["nm", "-n", "--defined-only", exe], stdout=subprocess.PIPE, text=True).stdout
+    tab = {}
+    for ln in out.splitlines():
+        f = ln.split()
+        if len(f) == 3 and f[1] in "tT": tab.setdefault(int(f[0], 16), f[2])
+    base = [a for a, nm in tab.items() if nm == "mmd_string_convert"]
+    return tab, (base[0] if base else 0)
+
+
+def deep_names(ev, sym):
+    tab, base = sym
+    return sorted({tab.get(base + d, "fn+%d" % d) for d, cnt in ev.get("deep", [])})
+
+
 def nest_class(o):
     if o and set(o) <= set("*_"): return "emphasis-delimiter-run"
     if o in ("[^", "[#"): return "nested-note-brackets"
@@ -62,6 +79,15 @@ def run(tier, seed):
             s.append(line("src", "n%d" % d, sx(doc.encode())))
             for w in writers: s.append(line("cost", "n%d" % d, docs.FMT[w], docs.STD))
         segs.append(s); meta.append(("nest", gg))
+        if gg["o"] in ('"', "'", "\"a 'a "):
+            # quotation marks again with smart typography off (the quote pairs are then written by a different branch of every writer)
+            s = ["seg\tnest", "timeout\t120"]
+            for d in depths:
+                doc = nest_doc(gg, d)
+                if len(doc) > 1200000: continue
+                s.append(line("src", "n%d" % d, sx(doc.encode())))
+                for w in writers: s.append(line("cost", "n%d" % d, docs.FMT[w], docs.STD & ~docs.EXT["SMART"]))
+            segs.append(s); meta.append(("nest", dict(gg, o=gg["o"] + " nosmart")))
     # the edge of the parser's own depth guard: siblings nested right at the limit, the later one much deeper
     s = ["seg\tedge", "timeout\t120"]
     for L in (998, 999, 1000, 1001):
@@ -87,6 +113,9 @@ def run(tier, seed):
             s.append(line("src", "k%d" % k, sx(body.encode())))
             s.append(line("cost", "k%d" % k, docs.FMT["html"], docs.STD))
             if tier == "thorough": s.append(line("cost", "k%d" % k, docs.FMT["latex"], docs.STD))
+            if "{" in seedtxt:
+                # the CriticMarkup accept and reject passes over the same text (formats 101 / 102: what -a / -r run before parsing)
+                s.append(line("cost", "k%d" % k, 101, 0)); s.append(line("cost", "k%d" % k, 102, 0))
         segs.append(s); meta.append(("cost", nm))
     # notes that refer to themselves, directly or through another note: the writers that expand a note where it is called (LaTeX family, OpenDocument)
     # must still end; one back reference per note gives a chain (bounded by the export depth guard), two give a tree (listed finding)
@@ -101,6 +130,7 @@ def run(tier, seed):
             s = ["seg\tcycle", "timeout\t%d" % (5 if nm == "double-back" else 60), line("src", "k1", sx(doc.encode())), line("cost", "k1", docs.FMT[w], docs.STD)]
             segs.append(s); meta.append(("cost", "cycle:%s:%s" % (nm, w)))
     res = run_harness(exe, segs, timeout=120)
+    sym = symtab(exe)
     trace = []; problems = []; n = 0
     for (kind, what), seg, r in zip(meta, segs, res):
         trace.append(dict(e="reset"))
@@ -108,7 +138,8 @@ def run(tier, seed):
             if ev.get("e") != "cost": continue
             n += 1
             if kind == "nest":
-                trace.append(dict(e="nest", key="%s|%s|%d" % (what["o"], what["shape"], ev["fmt"]), null=ev["null"], maxdepth=ev["maxdepth"], stackkib=ev["stackkib"], depth=int(ev["src"][1:]), op=what["o"], shape=what["shape"], fmt=ev["fmt"], kblocks=ev["kblocks"]))
+                trace.append(dict(e="nest", key="%s|%s|%d" % (what["o"], what["shape"], ev["fmt"]), null=ev["null"], maxdepth=ev["maxdepth"], stackkib=ev["stackkib"], depth=int(ev["src"][1:]), op=what["o"], shape=what["shape"], fmt=ev["fmt"], kblocks=ev["kblocks"],
+                                  deep=[dict(fn=nm) for nm in deep_names(ev, sym)]))
                 # the same measurement as a cost event: nesting n times deeper may cost at most proportionally more (base: nesting 2000)
                 dep = int(ev["src"][1:])
                 if dep < 10000000 and dep >= 2000 and dep % 2000 == 0 and what["shape"] != "siblings":
@@ -120,7 +151,7 @@ def run(tier, seed):
             sl = last[-1].get("sline", 0) if last else 0
             trace.append(dict(e=r["status"], what=str(what), cmd=seg[sl - 1][:60] if 0 < sl <= len(seg) else "?", op=(what.get("o", "") if isinstance(what, dict) else ""),
                               shape=(what.get("shape", "") if isinstance(what, dict) else ""), san=r.get("san", "")[:3000]))
-    acc, rejected, states, info = tlc.validate_trace("Cost", "CONSTANTS Limit = 1000\n MaxNest = 0\n Sim = FALSE\n Mode = \"t\"\nINIT TInit\nNEXT TNext\nPOSTCONDITION TraceAccepted\nCHECK_DEADLOCK FALSE\n", trace, max_rejects=80, timeout=1500, independent=True)
+    acc, rejected, states, info = tlc.validate_trace("Cost", "CONSTANTS Limit = 1000\n MaxNest = 0\n Sim = FALSE\n Mode = \"t\"\nINIT TInit\nNEXT TNext\nPOSTCONDITION TraceAccepted\nCHECK_DEADLOCK FALSE\n", trace, max_rejects=300, timeout=1500, independent=True)
     chk.add("traces_validated_against_impl", len(segs) - len(rejected))
     chk.cov["evaluations"] = n; chk.cov["distinct_nontrivial"] = len(segs)
     chk.cov["explanation"] = ("Recursion structure model-checked (Limit 3 and 1000); measurements of %d conversions judged by the Cost monitor: stack <= 4 MiB and not growing with nesting beyond 2000 for %d nesting constructs x 4 shapes x depths %s; "
@@ -131,7 +162,9 @@ def run(tier, seed):
     seen = {}
     for seg, idx in rejected:
         ev = seg[idx]
-        if ev["e"] == "nest": key = "stack-proportional-to-nesting" if ev["shape"] == "balanced" else "depth-or-stack:%s:%s" % (ev["op"], ev["shape"]); desc = "nesting %r x %d (%s), format %d: recursion depth %d, stack %d KiB" % (ev["op"], ev["depth"], ev["shape"], ev["fmt"], ev["maxdepth"], ev["stackkib"])
+        if ev["e"] == "nest" and ev["deep"]:
+            key = "unguarded-recursion:" + "+".join(d["fn"] for d in ev["deep"]); desc = "nesting %r x %d (%s), format %d: more than 1500 frames of %s active at once (recursion depth %d, stack %d KiB)" % (ev["op"], ev["depth"], ev["shape"], ev["fmt"], [d["fn"] for d in ev["deep"]], ev["maxdepth"], ev["stackkib"])
+        elif ev["e"] == "nest": key = ("stack-proportional-to-nesting:%s" % nest_class(ev["op"])) if ev["shape"] == "balanced" else "depth-or-stack:%s:%s" % (ev["op"], ev["shape"]); desc = "nesting %r x %d (%s), format %d: recursion depth %d, stack %d KiB" % (ev["op"], ev["depth"], ev["shape"], ev["fmt"], ev["maxdepth"], ev["stackkib"])
         elif ev["e"] == "cost":
             b = [x for x in seg if x.get("e") == "cost" and x["seed"] == ev["seed"] and x["k"] == 1]
             key = "superlinear:%s" % (":".join(ev["seed"].split("|")[0].split(":")[:2]) if ev["seed"].startswith("nest:") else ev["seed"].split("|")[0]); desc = "seed %s: %d copies cost %d kblocks, one copy %s kblocks" % (ev["seed"], ev["k"], ev["kblocks"], b[0]["kblocks"] if b else "?")
@@ -141,7 +174,7 @@ def run(tier, seed):
         elif ev.get("op") and ev["e"] in ("aborted", "killed"):
             kd, fr = san_signature(ev.get("san", ""))
             deep = "SEGV" in ev.get("san", "") and "zero page" not in ev.get("san", "")          # a fault away from address 0 on a thread whose stack is the limit: the stack ran out
-            key = "stack-proportional-to-nesting" if (deep and ev["shape"] in ("balanced", "open", "close", "interleaved")) else "aborted:nest:%s:%s" % (kd, fr)
+            key = ("unguarded-recursion:%s" % (fr or nest_class(ev["op"]))) if (deep and ev["shape"] in ("balanced", "open", "close", "interleaved")) else "aborted:nest:%s:%s" % (kd, fr)
             desc = "nesting %r (%s): the process died during %s :: %s" % (ev["op"], ev["shape"], ev.get("cmd"), ev.get("san", "")[:300].replace("\n", " | "))
         elif str(ev.get("what", "")).startswith("cycle:"): key = "%s:%s" % (ev["e"], ":".join(ev["what"].split(":")[:2])); desc = "%s: conversion of a document whose notes refer to each other did not return (%s)" % (ev["what"], ev["e"])
         else: key = "%s:%s" % (ev["e"], ev.get("what", ""))[:120]; desc = "conversion did not return: %s during %s" % (ev["e"], ev.get("cmd"))
